@@ -153,6 +153,20 @@ func checkC16(c c16Case, rec *Rec) *Violation {
 				return viol(id, "C16:harness", "fetch through the proxy: %v", ferr)
 			}
 			_, opt, _, found := splitInjected(body)
+			if found && accept == proxyAccepts[0] {
+				// the script the tag points to is computed with the option the tag carries
+				script, serr := rg.fetchScript(body)
+				if serr != nil {
+					return viol(id, "C16:harness", "fetch of the content script: %v", serr)
+				}
+				o := rules.CosmeticOption(opt)
+				wantGen := o&rules.CosmeticOptionCSS != 0 && o&rules.CosmeticOptionGenericCSS != 0
+				wantSpec := o&rules.CosmeticOptionCSS != 0
+				if g, s := strings.Contains(string(script), ".e2e-generic"), strings.Contains(string(script), ".e2e-specific"); g != wantGen || s != wantSpec {
+					return viol(id, "C16:option-mismatch:content-script", "page excepted by %q: the tag carries option %03b but the script it points to has generic selector=%v (want %v), specific selector=%v (want %v)",
+						"@@"+c16PageName(mask)+"$"+strings.Join(c.Mods, ","), opt, g, wantGen, s, wantSpec)
+				}
+			}
 			switch {
 			case w == rules.CosmeticOptionNone && found:
 				return viol(id, "C16:option-reenabled", "page excepted by %q fetched through the proxy (Accept %q): a content script with option %03b is injected although every option is off", "@@"+c16PageName(mask)+"$"+strings.Join(c.Mods, ","), accept, opt)
